@@ -111,10 +111,18 @@ def check_kernels(pid, work, log):
     for (gfile, genfn, tie) in stages:
         try:
             text = genfn(C.REPO)
-        except Exception as e:  # fail closed
-            res["obligations"] += 1
-            res["failed"].append(f"translator ({gfile}): {type(e).__name__}: {e}")
-            continue
+        except Exception as e:  # fail closed ...
+            # ... after a second reading: the same source with local aliases, extracted private helpers and
+            # `continue` guards undone (harness/pynorm.py); the tie lemmas must then close on that text
+            try:
+                from . import pynorm
+                with pynorm.second_reading():
+                    text = genfn(C.REPO)
+                res.setdefault("second_reading", []).append(f"{gfile}: {type(e).__name__}: {str(e)[:160]}")
+            except Exception:
+                res["obligations"] += 1
+                res["failed"].append(f"translator ({gfile}): {type(e).__name__}: {e}")
+                continue
         open(os.path.join(gen, gfile), "w").write(text)
         shutil.copy(os.path.join(C.COQ, "Gen", tie), os.path.join(gen, tie))
         names += re.findall(r"Print Assumptions\s+([A-Za-z0-9_'.]+)\s*\.", strip_comments(open(os.path.join(gen, tie)).read()))
